@@ -436,7 +436,7 @@ ENH_INV = [
 ]
 ENH_SPLICES = [
     ('let mut best_idx: Option<usize> = None;', 'let ghost mut qm: f64 = 1.0f64;', 'before'),
-    ('let score = if !enable_quality {', 'proof { qm = 1.0f64; }', 'before'),
+    ('let score = if ', 'proof { qm = 1.0f64; }', 'before'),
     ('let quality_mult = c.get_cached_quality_multiplier(current_time_ms);', 'proof { assert(q_ok(old(conns)[i as int].quality_cache.multiplier)); assert(q_ok(c.quality_cache.multiplier)); }', 'before'),
     ('let final_score = base * quality_mult * cap_mult * gate_mult;', 'proof { qm = quality_mult; }', 'before'),
     ('if Some(i) == last_idx {', '''proof {
